@@ -299,6 +299,12 @@ func clearUnserialised(v reflect.Value) {
 	}
 }
 
+type shapeDecoy struct {
+	A string `cbor:"1,keyasint" json:"a"`
+	B []byte `cbor:"2,keyasint,omitempty" json:"b,omitempty"`
+	C int    `cbor:"3,keyasint,omitempty" json:"c,omitempty"`
+}
+
 func observeShape(b int, typeName, fmtName string, val any, fresh func() any, cc Conc) shapeEv {
 	ev := shapeEv{B: b, Op: "Shape", Type: typeName, Fmt: fmtName, Shape: describe(reflect.ValueOf(val), fmtName),
 		Ser: serRes{Keys: []any{}}, Missing: []missRes{}}
@@ -320,8 +326,16 @@ func observeShape(b int, typeName, fmtName string, val any, fresh func() any, cc
 		if err != nil {
 			return
 		}
+		keep := append([]byte{}, out...)
 		out2, err2 := ser(val)
 		ev.Ser.Stable = err2 == nil && bytes.Equal(out, out2)
+		// ... and what was returned stays what it was while other values are serialised (no shared buffer)
+		for _, decoy := range []any{&shapeDecoy{A: "decoy", B: []byte("0123456789abcdef0123456789abcdef"), C: 7}, &shapeDecoy{A: "x"}} {
+			if _, derr := ser(decoy); derr != nil {
+				ev.Ser.Stable = false
+			}
+		}
+		ev.Ser.Stable = ev.Ser.Stable && bytes.Equal(out, keep) && bytes.Equal(out2, keep)
 		var pairs [][2][]byte
 		var jvals []json.RawMessage
 		if fmtName == "cbor" {
